@@ -30,7 +30,7 @@ RULE = (
     "(file bytes digest, encoding, scenario digest)."
 )
 TIERS = {
-    "quick": {"runs": 150, "budget_s": 45, "min_runs": 4, "run_timeout_s": 240},
+    "quick": {"runs": 150, "budget_s": 60, "min_runs": 4, "run_timeout_s": 240},
     "thorough": {"runs": 10000, "budget_s": 800, "min_runs": 40, "run_timeout_s": 600},
 }
 COMPONENTS_REAL = [
@@ -104,6 +104,15 @@ def gen_world(rng: Rng) -> dict:
                 pieces.append(("string", tok))
             else:
                 pieces.append(("block", tok))
+        # characters that str.splitlines() treats as line boundaries but SQL (and sqlfluff's newline
+        # normalisation) does not: inside a literal / a comment they are ordinary text to preserve
+        exotic = ["\x0c", "\x0b", "\x1c", "\x1e"]
+        if file_enc in ("utf-8", "utf-8-sig", "utf-16"):
+            exotic += ["\u2028", "\u2029", "\x85"]
+        elif file_enc == "latin-1":
+            exotic += ["\x85"]
+        if rng.chance(0.35):
+            pieces.append((rng.choice(["xstring", "xcomment"]), rng.choice(exotic)))
         body = (head + "\n" + text) if not long_file else (text.rstrip("\n") + "\n" + head + "\n")
         for kind, tok in pieces:
             b = body.rstrip("\n")
@@ -111,6 +120,10 @@ def gen_world(rng: Rng) -> dict:
                 body = b + "\n-- trailing note %s end\n" % tok
             elif kind == "string":
                 body = b + "\n;\n\nSELECT 'lit%sx' AS s\nFROM tbl\n" % tok
+            elif kind == "xstring":
+                body = b + "\n;\n\nSELECT 'ab%scd' AS e\nFROM tbl\n" % tok
+            elif kind == "xcomment":
+                body = b + "\n-- note ab%scd\n" % tok
             else:
                 body = b + "\n/* block %s comment */\n" % tok
         nl = rng.choice(["lf", "lf", "crlf", "cr", "mixed"])
@@ -137,6 +150,10 @@ def gen_world(rng: Rng) -> dict:
                 protected.append(enc_tok("-- trailing note %s end" % tok))
             elif kind == "string":
                 protected.append(enc_tok("'lit%sx'" % tok))
+            elif kind == "xstring":
+                protected.append(enc_tok("'ab%scd'" % tok))
+            elif kind == "xcomment":
+                protected.append(enc_tok("-- note ab%scd" % tok))
             else:
                 protected.append(enc_tok("/* block %s comment */" % tok))
         if any(m[2] == "head_comment" for m in marks):
@@ -145,7 +162,7 @@ def gen_world(rng: Rng) -> dict:
             data = data.replace(tok.encode("ascii"), bad)
             protected = [p.replace(tok.encode("ascii"), bad) for p in protected]
         files["proj/" + name] = {"b64": b64(data), "mode": rng.choice([0o644, 0o600, 0o664])}
-        meta["proj/" + name] = {"file_enc": file_enc, "newline": nl, "inj": inj, "corrupt": [[m[1].hex(), m[2]] for m in marks],
+        meta["proj/" + name] = {"file_enc": file_enc, "newline": nl, "inj": inj, "exotic": [repr(t) for k_, t in pieces if k_ in ("xstring", "xcomment")], "corrupt": [[m[1].hex(), m[2]] for m in marks],
                                 "protected": [b64(p) for p in protected], "bad": [m[1].hex() for m in marks], "long": long_file}
     core: dict[str, Any] = {"dialect": "ansi"}
     if enc_cfg != "autodetect":
